@@ -1,4 +1,5 @@
-from yowsup.layers import YowLayer
+from yowsup.layers import YowLayer, EventCallback
+from yowsup.layers.network.layer import YowNetworkLayer
 
 import logging
 import struct
@@ -17,6 +18,11 @@ class YowNoiseSegmentsLayer(YowLayer):
 
     def __str__(self):
         return "Noise Segments Layer"
+
+    @EventCallback(YowNetworkLayer.EVENT_STATE_DISCONNECTED)
+    def on_disconnected(self, event):
+        # bytes of a segment the lost connection did not complete must not be prepended to the next connection's stream
+        self._read_buffer = bytearray()
 
     def send(self, data):
         if len(data) >= 16777216:
